@@ -64,9 +64,27 @@ def run(ctx, repo, tier):
         """helpers that place the molecule (they call rotate / translate or assign positions); pure converters are left as calls"""
         return any((isinstance(x, ast.Call) and isinstance(x.func, ast.Attribute) and x.func.attr in MUTATORS) or
                    (isinstance(x, (ast.Assign, ast.AugAssign)) and any(isinstance(t_, ast.Attribute) and t_.attr == "positions"
-                                                                        for t_ in (x.targets if isinstance(x, ast.Assign) else [x.target])))
+                                                                        for t_ in (x.targets if isinstance(x, ast.Assign) else [x.target]))) or
+                   (isinstance(x, ast.Call) and isinstance(x.func, ast.Name) and x.func.id == "Merge")
                    for x in ast.walk(fn_node))
     _spl = splice_self_calls(pci, gen.node, module=pci.module, accept=_moves_atoms)
+
+    class _InlineMerge(ast.NodeTransformer):
+        """self._helper()  ->  Merge(...)  for parameterless private helpers whose whole body is `return Merge(...)`"""
+        def visit_Call(self, node):
+            self.generic_visit(node)
+            if isinstance(node.func, ast.Attribute) and isinstance(node.func.value, ast.Name) and node.func.value.id == "self" and \
+                    not node.args and not node.keywords and node.func.attr.startswith("_"):
+                m_ = pci.find_method(node.func.attr)
+                if m_ is not None:
+                    b_ = [x for x in m_.node.body if not (isinstance(x, ast.Expr) and isinstance(x.value, ast.Constant))]
+                    if len(b_) == 1 and isinstance(b_[0], ast.Return) and isinstance(b_[0].value, ast.Call) and \
+                            isinstance(b_[0].value.func, ast.Name) and b_[0].value.func.id == "Merge":
+                        ctx.analysed(m_)
+                        import copy as _cp
+                        return _cp.deepcopy(b_[0].value)
+            return node
+    _spl = ast.fix_missing_locations(_InlineMerge().visit(_spl))
     _sp0(_spl)
     for c_ in ast.walk(gen.node):
         if isinstance(c_, ast.Call) and isinstance(c_.func, ast.Name) and pci.module.functions.get(c_.func.id) is not None:
@@ -562,6 +580,45 @@ def run(ctx, repo, tier):
             ctx.ok("ORD", "C10.collect", "frames are collected from the generator by an unconditional append / indexed store per frame", gp.where)
         else:
             ctx.inconclusive("ORD", "C10.collect", "collection loop over the generator not recognised", gp.where)
+    elif [n for n in ast.walk(gp.node) if isinstance(n, ast.For) and isinstance(n.iter, ast.Call) and isinstance(n.iter.func, ast.Attribute) and
+          isinstance(n.iter.func.value, ast.Name) and n.iter.func.value.id == "self" and pci.find_method(n.iter.func.attr) is not None and
+          _moves_atoms(pci.find_method(n.iter.func.attr).node) and
+          any(isinstance(y_, ast.Yield) for y_ in ast.walk(pci.find_method(n.iter.func.attr).node))]:
+        # the collector drives the placement generator itself and stacks the coordinates of the two molecules per frame
+        fl_ = [n for n in ast.walk(gp.node) if isinstance(n, ast.For) and isinstance(n.iter, ast.Call) and isinstance(n.iter.func, ast.Attribute) and
+               isinstance(n.iter.func.value, ast.Name) and n.iter.func.value.id == "self" and pci.find_method(n.iter.func.attr) is not None and
+               _moves_atoms(pci.find_method(n.iter.func.attr).node)][0]
+        pg_ = pci.find_method(fl_.iter.func.attr)
+        ctx.analysed(pg_)
+        # the placement generator must be the one the frame rules above were evaluated on (spliced into generate_pseudotrajectory)
+        same_gen = any(isinstance(c_, ast.Call) and isinstance(c_.func, ast.Attribute) and c_.func.attr == pg_.name
+                       for c_ in ast.walk(pci.methods["generate_pseudotrajectory"].node))
+        jumps_ = [n for n in ast.walk(fl_) if isinstance(n, (ast.Continue, ast.Break))]
+        top_apps = [st_.value for st_ in fl_.body if isinstance(st_, ast.Expr) and isinstance(st_.value, ast.Call) and
+                    isinstance(st_.value.func, ast.Attribute) and st_.value.func.attr == "append" and st_.value.args]
+        all_apps = [n for n in ast.walk(fl_) if isinstance(n, ast.Call) and isinstance(n.func, ast.Attribute) and n.func.attr in ("append", "insert", "appendleft", "extend")]
+        cg_ = Canon(Canon.single_defs(gp.node.body))
+        verdict_ = None
+        if len(top_apps) == 1 and len(all_apps) == 1 and not jumps_ and same_gen:
+            e_ = cg_.expand(top_apps[0].args[0])
+            if isinstance(e_, ast.Call) and (repo.dotted_of(gp.module, e_.func) or "") in ("numpy.vstack", "numpy.concatenate", "numpy.row_stack") and e_.args and \
+                    isinstance(e_.args[0], (ast.List, ast.Tuple)) and len(e_.args[0].elts) == 2:
+                parts_ = [src(x_).replace(".copy()", "") for x_ in e_.args[0].elts]
+                if parts_ == ["self.static_molecule.atoms.positions", "self.moving_molecule.atoms.positions"]:
+                    verdict_ = True
+                elif parts_ == ["self.moving_molecule.atoms.positions", "self.static_molecule.atoms.positions"]:
+                    verdict_ = False
+        if jumps_:
+            ctx.violate("ORD", "C10.collect", "frames are filtered or re-ordered when they are collected from the generator", gp.where,
+                        src(jumps_[0])[:80], witness="break / continue inside the collection loop")
+        elif verdict_ is True:
+            ctx.ok("ORD", "C10.collect", "one frame per placement, unconditionally appended: coordinates of molecule 1 stacked above those of "
+                   "molecule 2 (the order of the topology)", gp.where, src(top_apps[0])[:140])
+        elif verdict_ is False:
+            ctx.violate("ORD", "C10.collect", "the coordinates of a frame are stacked as molecule 2 above molecule 1 while the topology lists "
+                        "molecule 1 first", gp.where, src(top_apps[0])[:140], witness="np.vstack([moving, static])")
+        else:
+            ctx.inconclusive("ORD", "C10.collect", "collection loop over the placement generator not recognised", gp.where)
     else:
         ctx.inconclusive("ORD", "C10.collect", "collection of the frames from the generator not recognised", gp.where)
     guards = [n for n in ast.walk(gp.node) if isinstance(n, ast.If) and "self.pt" in src(n.test)]
@@ -622,6 +679,33 @@ def run(ctx, repo, tier):
             verdicts.append("other")
         else:
             verdicts.append("unknown")
+    # paired form inside the constructor / its private helpers:
+    #   both = (self.central_molecule, self.moving_molecule); coms = [m.atoms.center_of_mass() for m in both]
+    #   for m, c in zip(both, coms): m.atoms.translate(-c)
+    if len(trs) == 1 and verdicts == ["unknown"]:
+        t = trs[0]
+        from ..model import set_parents as _sp
+        _sp(cb.node)
+        lp = getattr(t, "_parent", None)
+        while lp is not None and not isinstance(lp, ast.For):
+            lp = getattr(lp, "_parent", None)
+        a = t.args[0] if t.args else {k.arg: k.value for k in t.keywords}.get("t")
+        if lp is not None and a is not None and isinstance(lp.target, ast.Tuple) and len(lp.target.elts) == 2 and \
+                all(isinstance(e_, ast.Name) for e_ in lp.target.elts) and isinstance(lp.iter, ast.Call) and src(lp.iter.func) == "zip" and \
+                len(lp.iter.args) == 2:
+            xv, cv = lp.target.elts[0].id, lp.target.elts[1].id
+            S_, L_ = lp.iter.args
+            Se, Le = ccb.expand(S_), ccb.expand(L_)
+            if isinstance(Se, (ast.Tuple, ast.List)) and isinstance(Le, ast.ListComp) and len(Le.generators) == 1 and not Le.generators[0].ifs and \
+                    isinstance(Le.generators[0].target, ast.Name) and \
+                    src(ccb.expand(Le.generators[0].iter)) == src(Se):
+                yv = Le.generators[0].target.id
+                own = src(Le.elt).replace(" ", "") == f"{yv}.atoms.center_of_mass()" and src(t.func.value) == f"{xv}.atoms" and \
+                    src(a).replace(" ", "") in (f"-{cv}", f"-1*{cv}")
+                members = {src(e_) for e_ in Se.elts}
+                if own and {"self.central_molecule", "self.moving_molecule"} <= members:
+                    verdicts = ["ok", "ok"]
+                    trs = [t, t]
     # centring delegated to a module-level helper:  helper(self.central_molecule, self.moving_molecule)  whose body translates every
     # molecule it is given by minus that molecule's own centre of mass (centres may be collected first, pairing by zip)
     helper_ok = None
@@ -694,6 +778,54 @@ def run(ctx, repo, tier):
     if pinit is not None and init is not None:
         ctx.analysed(pinit)
         pc = [n for n in ast.walk(pinit.node) if isinstance(n, ast.Call) and isinstance(n.func, ast.Name) and n.func.id == "Pseudotrajectory"]
+        # the construction may live in a helper of the writer: reached from __init__ (eager, as today) or only on first use (lazy)
+        reach = {"__init__"}
+        grow = True
+        while grow:
+            grow = False
+            for m_ in list(reach):
+                # every definition of the name along the hierarchy (super().__init__() runs the parent's constructor as well)
+                for fm_ in [c_.methods[m_] for c_ in pw.mro() if m_ in c_.methods]:
+                    for n in ast.walk(fm_.node):
+                        if isinstance(n, ast.Call) and isinstance(n.func, ast.Attribute) and isinstance(n.func.value, ast.Name) and \
+                                n.func.value.id == "self" and n.func.attr not in reach and pw.find_method(n.func.attr) is not None:
+                            reach.add(n.func.attr)
+                            grow = True
+        lazy_home = None
+        if not pc:
+            for c_ in pw.mro():
+                for name_, fm_ in c_.methods.items():
+                    found_ = [n for n in ast.walk(fm_.node) if isinstance(n, ast.Call) and isinstance(n.func, ast.Name) and n.func.id == "Pseudotrajectory"]
+                    if found_ and not pc:
+                        pc = found_
+                        ctx.analysed(fm_)
+                        if name_ not in reach:
+                            lazy_home = fm_
+        if lazy_home is not None:
+            # built on first use: the molecules must still be in the state the constructor left them in (centred).  Any method of the
+            # writer that moves one of them in place before that first use changes every frame.
+            movers = []
+            for c_ in pw.mro():
+                for name_, fm_ in c_.methods.items():
+                    if name_ in reach or fm_ is lazy_home:
+                        continue
+                    for n in ast.walk(fm_.node):
+                        if isinstance(n, ast.Call) and isinstance(n.func, ast.Attribute) and n.func.attr in ("translate", "rotate", "rotateby", "transform", "wrap", "unwrap") and \
+                                src(n.func.value).startswith(("self.moving_molecule", "self.central_molecule")):
+                            movers.append((f"{c_.name}.{name_}", src(n)[:100]))
+                        if isinstance(n, (ast.Assign, ast.AugAssign)):
+                            for t_ in (n.targets if isinstance(n, ast.Assign) else [n.target]):
+                                if src(t_).startswith(("self.moving_molecule", "self.central_molecule")):
+                                    movers.append((f"{c_.name}.{name_}", norm_stmt(n)[:100]))
+            ctx.instance("DOM")
+            if movers:
+                ctx.violate("DOM", "C10.writer.lazy", "the pseudotrajectory is built on first use, from whatever state the two molecules are in at "
+                            "that moment, while another method of the writer moves a molecule in place: called before the first use it "
+                            "shifts the second molecule in EVERY frame (it is no longer centred when it is rotated and placed)", lazy_home.where,
+                            src(pc[0])[:140], witness="; ".join(f"{w_}: {t_}" for w_, t_ in movers[:3]))
+            else:
+                ctx.ok("DOM", "C10.writer.lazy", "the pseudotrajectory is built on first use and no method of the writer moves a molecule before that",
+                       lazy_home.where)
         ctx.instance("FLOW")
         b = _bind(pc[0], init.node) if pc else None
         if b is None:
